@@ -157,9 +157,11 @@ class TimeDomain(ZoneDomain):
             if not ok:
                 return AVal.top()
             fields = frozenset(k.arg for k in e.keywords)
-            root = self._exactly(v, s, (self.clock, f'{self.clock}@sec'))
-            if root is not None and root.endswith('@sec'):
-                fields = fields | {'microsecond'}       # already on a whole second
+            root = self._exactly(v, s, (self.clock,) + tuple(f'{self.clock}@{g}' for g in GRAN.values()))
+            if root is not None and '@' in root:
+                # already floored (a whole second, midnight, ...): those fields are at their minimum
+                done = next(fs for fs, g in GRAN.items() if g == root.split('@', 1)[1])
+                fields = fields | done
             if root is not None and fields in GRAN:
                 return AVal(f'{self.clock}@{GRAN[fields]}', 0, 0, True)
             span = sum(FIELD_SPAN[k] for k in fields)
@@ -288,7 +290,13 @@ class TimeDomain(ZoneDomain):
                     del s.aux[k]
         s.aux.pop(f'tag:{x}', None)
         s.facts -= {f'none:{x}', f'some:{x}'}
+        s.facts -= {f for f in s.facts if f.startswith((f'str:{x}=', f'strnot:{x}='))}
         super().assign(s, x, v, rhs)
+        if v.base is not None and v.base != x and v.lo == 0 == v.hi:
+            for f in list(s.facts):
+                for k in ('str:', 'strnot:'):
+                    if f.startswith(f'{k}{v.base}='):
+                        s.facts.add(f'{k}{x}=' + f.split('=', 1)[1])
         for var, lo, hi in v.extra:
             if var == x:
                 continue
@@ -429,21 +437,26 @@ class TimeDomain(ZoneDomain):
         if isinstance(test, ast.Compare) and len(test.ops) == 1 and isinstance(test.ops[0], ast.Eq) \
                 and isinstance(test.comparators[0], ast.Constant) \
                 and isinstance(test.comparators[0].value, str):
-            x = self.varname(test.left)
-            if x is not None:
-                lab = f'str:{x}='
-                have = [f for f in s.facts if f.startswith(lab)]
+            x0 = self.varname(test.left)
+            if x0 is not None:
+                # plain copies of the value (`requested = options.start`) carry the same label
+                s.close()
+                same = [x0] + sorted({a for (a, b), c in s.m.items() if b == x0 and c == 0 and a != x0
+                                      and a != ZERO and s.m.get((x0, a), INF) == 0})
                 val = test.comparators[0].value
-                if truth:
-                    if have and have[0] != lab + val:
-                        return []
-                    if f'strnot:{x}={val}' in s.facts:
-                        return []
-                    s.facts.add(lab + val)
-                else:
-                    if have and have[0] == lab + val:
-                        return []
-                    s.facts.add(f'strnot:{x}={val}')
+                for x in same:
+                    lab = f'str:{x}='
+                    have = [f for f in s.facts if f.startswith(lab)]
+                    if truth:
+                        if have and have[0] != lab + val:
+                            return []
+                        if f'strnot:{x}={val}' in s.facts:
+                            return []
+                    else:
+                        if have and have[0] == lab + val:
+                            return []
+                for x in same:
+                    s.facts.add((f'str:{x}=' if truth else f'strnot:{x}=') + val)
             return [s]
         # truthiness of a number (None is falsy)
         x = self.varname(test)
